@@ -1129,7 +1129,14 @@ class NestedPipeFunc(PipeFunc):
             "resources": self.resources,
         }
         kwargs.update(update)
-        return NestedPipeFunc(**kwargs)  # type: ignore[arg-type]
+        f = NestedPipeFunc(**kwargs)  # type: ignore[arg-type]
+        if "pipefuncs" not in update and "renames" not in update:
+            # Defaults and bound values that were set on the nested function itself
+            # (`update_defaults`, `update_bound`) are part of what it computes
+            f._defaults = dict(f._defaults, **self._defaults)
+            f._bound = dict(self._bound)
+            clear_cached_properties(f, PipeFunc)
+        return f
 
     def _combine_mapspecs(self) -> MapSpec | None:
         mapspecs = [f.mapspec for f in self.pipeline.functions]
